@@ -365,10 +365,10 @@ theorem fdtDispatch_attach (I : ObjIface σ) (s s' : State σ) (id : Nat) (f : F
   · rename_i hst
     exact fdtCompleted_attach I s s' id now r evs f hf (hu hst) h
 
-theorem pushFdtObj_attach (I : ObjIface σ) (s s' : State σ) (p : Pkt) (now : Int) (ans : FdtAns)
-    (r : Res) (evs : List Ev) (h : pushFdtObj I s p now ans = .ok (s', r, evs)) :
+theorem pushFdtObjP_attach (I : ObjIface σ) (s s' : State σ) (p : Pkt) (now : Int) (ans : FdtAns)
+    (r : Res) (evs : List Ev) (h : pushFdtObj' I s p now ans = .ok (s', r, evs)) :
     AttachSound now s' evs := by
-  unfold pushFdtObj at h
+  unfold pushFdtObj' at h
   split at h
   · split at h
     · simp only [Except.ok.injEq, Prod.mk.injEq] at h
@@ -395,6 +395,11 @@ theorem pushFdtObj_attach (I : ObjIface σ) (s s' : State σ) (p : Pkt) (now : I
             injection hupd with hupd
             subst hupd
             exact absurd hst hne
+
+theorem pushFdtObj_attach (I : ObjIface σ) (s s' : State σ) (p : Pkt) (now : Int) (ans : FdtAns)
+    (r : Res) (evs : List Ev) (h : pushFdtObj I s p now ans = .ok (s', r, evs)) :
+    AttachSound now s' evs :=
+  pushFdtObjP_attach I _ s' p now ans r evs h
 
 theorem push_attach (I : ObjIface σ) (s s' : State σ) (p : Pkt) (now : Int) (ans : FdtAns)
     (r : Res) (evs : List Ev) (h : push I s p now ans = .ok (s', r, evs)) :
